@@ -295,10 +295,16 @@ def job_melody(n, binary):
             A.require(A.Or(A.And(A.xeq(srv, 0), A.eq(got, 0)), A.And(A.xgt(srv, 0), A.eq(got * srv, num))), 'melody.%s==definition' % tag)
         # overall accuracy (generalised to continuous voicing)
         if n:
-            hit = sum_(rv[i] * ev[i] * ind(within(i, False)) for i in range(n)) if binary else None
+            # Bittner & Bosch: voiced part weighted by the reference reward and the estimated voicing, rescaled by
+            # (#voiced / sum of rewards); unvoiced part (1 - [ref voiced]) * (1 - est voicing)
+            hit = sum_(rv[i] * ev[i] * ind(within(i, False)) for i in range(n))
+            unv = sum_(ind(A.xeq(rv[i], 0)) * (1 - ev[i]) for i in range(n))
             if binary:
-                unv = sum_(ind(A.xeq(rv[i], 0)) * (1 - ev[i]) for i in range(n))
-                A.require(A.eq(oa * n, hit + unv), 'melody.overall_accuracy==definition(binary voicing)')
+                A.require(A.eq(oa * n, hit + unv), 'melody.overall_accuracy==definition')
+            else:
+                # oa*n == (nv/srv)*hit + unv   <=>   (oa*n - unv)*srv == nv*hit   (srv > 0), and oa*n == unv when srv == 0
+                A.require(A.Or(A.And(A.xeq(srv, 0), A.eq(oa * n, unv)), A.And(A.xgt(srv, 0), A.eq((oa * n - unv) * srv, nv * hit))),
+                          'melody.overall_accuracy==definition')
     return Job('C04', 'melody.frame_measures[%d frames,%s voicing]' % (n, 'binary' if binary else 'continuous'), build, body,
                funcs=['melody.voicing_measures', 'melody.raw_pitch_accuracy', 'melody.raw_chroma_accuracy', 'melody.overall_accuracy'],
                bounds=dict(frames=n), timeout_s=1800)
